@@ -203,7 +203,9 @@ class Decode:
 
             self.acs[icao]["icao"] = icao
             self.acs[icao]["t"] = t
-            self.acs[icao]["live"] = int(t)
+            # Comm-B replies are processed after the ADS-B messages of the same
+            # chunk and can be older than them: never move "live" backwards
+            self.acs[icao]["live"] = max(self.acs[icao]["live"], int(t))
 
             bds = pms.bds.infer(msg)
 
